@@ -699,10 +699,10 @@ def get_tilde_constraints(constraint):
         raise ValueError(f"Invalid tilde GemConstraint: {constraint!r}")
     version = constraint.version
     assert isinstance(version, GemVersion)
-    lower_bound = version.release()
-    upper_bound = lower_bound.bump()
+    # the lower bound is the version itself, which may be a prerelease
+    upper_bound = version.release().bump()
 
     return (
-        GemConstraint(op=">=", version=lower_bound),
+        GemConstraint(op=">=", version=version),
         GemConstraint(op="<", version=upper_bound),
     )
